@@ -292,11 +292,10 @@ class Textgrid:
                 f"EraseRegion error: start time ({start}) must occur before end time ({end})"
             )
 
-        diff = end - start
-
         maxTimestamp = self.maxTimestamp
         if doShrink is True:
-            maxTimestamp -= diff
+            # Computed exactly as the tiers compute their new maxTimestamp
+            maxTimestamp = start + (maxTimestamp - end)
 
         newTG = Textgrid(self.minTimestamp, self.maxTimestamp)
         for tier in self.tiers:
